@@ -800,6 +800,45 @@ template<class Src>
     }
 }
 
+// make_elastic_integer(v) for v of a CNL class type (elastic / wide / rounding / overflow integer): "hold that initializer
+// exactly" — the value, and a type whose digits hold it
+template<class Src>
+[[gnu::noinline]] void class_value_program(const char* sname)
+{
+    if (!vf::begin(std::string("deduce_value<make_elastic_integer,") + sname + ">", false)) return;
+    for (Big const& r : cv::space<Src>(8, 1)) {
+        if (!vf::my_row()) continue;
+        std::string const id = r.str();
+        if (vf::replaying() && !vf::case_selected(id)) continue;
+        if (r.neg && r.abs() > cv::max_of<Src>()) {
+            vf::skip_pre();  // the most negative value of the source: elastic types have a symmetric range
+            continue;
+        }
+        Src v = cv::make_int<Src>(r);
+        Props p;
+        vf::Outcome o = vf::run([&] { p = extract_any(cnl::make_elastic_integer(v)); });
+        vf::validated();
+        vf::counted(r.neg);
+        std::string const what = std::string("make_elastic_integer(") + sname + "{" + id + "})";
+        if (vf::want_sample()) vf::sample(what + " -> " + (o.ok() ? props_str(p) : o.str()));
+        const char* cls = r.is_zero() ? "zero" : (r.neg ? "negative" : "positive");
+        if (!o.ok()) {
+            vf::outcome(o.str());
+            vf::violation(std::string("value/make_elastic_integer/from_class/") + vf::kind_name(o.kind) + "/" + cls, id, what + ": " + o.str());
+            continue;
+        }
+        Rat const got = Rat::scaled(p.rep, p.radix, p.exponent);
+        if (got != Rat(r)) {
+            vf::outcome("wrong_value");
+            vf::violation(std::string("value/make_elastic_integer/from_class/value/") + cls, id, what + " is " + props_str(p) + " == " + got.str() + ", initializer is " + id);
+        } else if (!holds(p.rep, p.digits)) {
+            vf::outcome("type_too_narrow");
+            vf::violation(std::string("value/make_elastic_integer/from_class/type_too_narrow/") + cls, id, what + " is " + props_str(p));
+        } else
+            vf::outcome("ok_make_elastic_integer_from_class");
+    }
+}
+
 template<class Src>
 void value_programs()
 {
@@ -832,6 +871,14 @@ static void group()
     scaled_value_program<cnl::scaled_integer<int, cnl::power<-3>>>();
     scaled_value_program<cnl::scaled_integer<u8, cnl::power<-2>>>();
     scaled_value_program<cnl::scaled_integer<int, cnl::power<-2, 3>>>();
+#elif VF_PART == 5
+    class_value_program<cnl::elastic_integer<5>>("elastic_integer<5>");
+    class_value_program<cnl::elastic_integer<40>>("elastic_integer<40>");
+    class_value_program<cnl::elastic_integer<7, unsigned>>("elastic_integer<7,unsigned>");
+    class_value_program<cnl::rounding_integer<int>>("rounding_integer<int>");
+    class_value_program<cnl::overflow_integer<int, cnl::saturated_overflow_tag>>("overflow_integer<int,saturated>");
+    class_value_program<cnl::wide_integer<40>>("wide_integer<40>");
+    class_value_program<cnl::wide_integer<100>>("wide_integer<100>");
 #elif VF_PART == 4
     scaled_value_program<cnl::scaled_integer<i64, cnl::power<-4, 10>>>();
     scaled_value_program<cnl::scaled_integer<i64, cnl::power<-20>>>();
